@@ -1,5 +1,4 @@
 SPECIFICATION TraceSpec
-CONSTANT Charts <- ChartsFromFile
 CONSTANT Variants = {}
 CHECK_DEADLOCK FALSE
 POSTCONDITION Consumed
